@@ -122,6 +122,16 @@ fn alloc_limit(file_len: usize) -> usize {
 /// Executes a scenario against the real code. `oracle_for_recovery`: when the last `Replace`
 /// installs an intact file, count lookups until the answers equal the C18 oracle (not judged).
 pub fn execute(sc: &Scenario, stats: &mut Option<&mut Stats>) -> Result<Log, Fail> {
+    if stats.is_some() {
+        crate::report::inflight_note(|| {
+            Json::obj()
+                .set("property", Json::s("C19"))
+                .set("engine", Json::s("faults"))
+                .set("invariant", Json::s("process-death"))
+                .set("scenario", scenario_to_json(sc))
+                .set("observed", Json::s("the process died while executing this fault scenario"))
+        });
+    }
     let fs = SimFs::install(sc.base.clone());
     let clock = SimClock::install(Instant::new(0, 0));
     let r = execute_inner(sc, &fs, &clock, stats);
@@ -384,6 +394,12 @@ pub fn battery_instants() -> Vec<i64> {
     for (y, m, d) in [(2024, 1, 1), (2024, 2, 29), (2024, 3, 1), (2024, 7, 15), (2024, 12, 31), (2023, 3, 26), (2023, 10, 29), (2023, 12, 31), (1969, 12, 31), (1901, 12, 13), (2038, 1, 19), (2100, 3, 1)] {
         v.push(cal::unix_from_civil(y, m, d, 12, 0, 0));
     }
+    // one instant in each year of a 28-year cycle (all 14 combinations of leap/common year and
+    // weekday of 1 January), at a date that walks through the months
+    for k in 0..28i64 {
+        let m = (k % 12 + 1) as u32;
+        v.push(cal::unix_from_civil(2020 + k, m, cal::days_in_month(2020 + k, m), 3, 30, 0));
+    }
     v
 }
 
@@ -396,6 +412,15 @@ struct Host {
 /// calls to find the culprit), a few through the local path.
 fn probe(host: &Host, content: Option<&[u8]>, instants: &[i64], rng_salt: u64, stats: &mut Stats) -> Result<(), (Fail, Op)> {
     let flen = content.map(|c| c.len()).unwrap_or(0);
+    crate::report::inflight_note(|| {
+        let sc = Scenario { base: content.map(|c| c.to_vec()), ops: instants.iter().map(|t| Op::LookupDirect { t: *t }).collect() };
+        Json::obj()
+            .set("property", Json::s("C19"))
+            .set("engine", Json::s("faults"))
+            .set("invariant", Json::s("process-death"))
+            .set("scenario", scenario_to_json(&sc))
+            .set("observed", Json::s("the process died while looking up in this stored content"))
+    });
     if let Some(c) = content {
         let b = c.to_vec();
         let ts = instants.to_vec();
@@ -1327,7 +1352,6 @@ pub fn replay(doc: &Json) -> i32 {
             } else {
                 println!("replay: a violation occurs but differs from the recorded one ([{}] {})", inv, want_obs);
             }
-            println!("VIOLATION property=C19 replay=(replayed)");
             1
         }
     }
